@@ -268,6 +268,79 @@ for d in ("crypt", "crypt_tweaked"):
     J("m.overlap_" + d, ["C09"], "h_mantis_cipher.c", "h_overlap_" + d, enforce="verif_overlap_" + d, must_have=LC + PC, replay="mantis", timeout=2400,
       tier="thorough", functions=["mantis_ecb_" + d], note="every overlap offset and alignment of input/output")
 
+# ------------------------------------------------------------------ C08: two-run self-composition with leakage ghost state
+# (plain CBMC on the instrumented real code; loops are bounded by program constants / public parameters and are
+# unwound with unwinding assertions; no contracts are active in this TU)
+HCT = "h_ct.c"
+_CT = ["C08 same branch/index observation", "C08 same number of observations"]
+for (h, uw, nt) in (("h_ct_s128_encrypt", 57, "rounds <= 56 symbolic (public); schedule and block secret"), ("h_ct_s128_decrypt", 57, ""),
+                    ("h_ct_s64_encrypt", 41, ""), ("h_ct_s64_decrypt", 41, ""), ("h_ct_mantis_crypt", 9, "rounds <= 8 public"),
+                    ("h_ct_mantis_crypt_tweaked", 9, ""), ("h_ct_mantis_set_key", 10, "size, rounds, mode public; key bytes secret"),
+                    ("h_ct_mantis_set_tweak_swap", 10, ""), ("h_ct_helpers", 18, "counter increments, block xors, skinny_xor / skinny_cleanse with public length <= 16")):
+    J("ct." + h[5:], ["C08"], HCT, h, loops=False, unwind=uw, must_have=_CT, replay=None, functions=[h[5:]], timeout=2400,
+      note="two runs, same public parameters, independent secrets: equal observation at an arbitrary witness position and equal count. " + nt)
+for (fam, B, maxr) in (("s128", 16, 57), ("s64", 8, 41)):
+    for n in sorted(set([B, B + 1, 2 * B - 1, 2 * B, 2 * B + 1, 3 * B - 1, 3 * B, 0, 3 * B + 1])):
+        J("ct.%s_set_key.len%d" % (fam, n), ["C08"], HCT, "h_ct_%s_set_key" % fam, loops=False, unwind=maxr, defs=["CT_LEN=%d" % n], must_have=_CT,
+          functions=["skinny%s_set_key" % fam[1:]], timeout=2400, tier="quick" if n in (B, 2 * B + 1, 3 * B) else "thorough",
+          note="key length %d public, key bytes and previous schedule secret" % n)
+    for n in sorted(set([B, B + 1, 2 * B - 1, 2 * B, 2 * B + 1])):
+        J("ct.%s_set_tweaked_key.len%d" % (fam, n), ["C08"], HCT, "h_ct_%s_set_tweaked_key" % fam, loops=False, unwind=maxr, defs=["CT_LEN=%d" % n],
+          must_have=_CT, functions=["skinny%s_set_tweaked_key" % fam[1:]], timeout=2400, tier="quick" if n in (B + 1,) else "thorough")
+    for n in sorted(set([0, 1, B // 2, B, B + 1])):
+        J("ct.%s_set_tweak.len%d" % (fam, n), ["C08"], HCT, "h_ct_%s_set_tweak" % fam, loops=False, unwind=maxr, defs=["CT_LEN=%d" % n],
+          must_have=_CT, functions=["skinny%s_set_tweak" % fam[1:]], timeout=2400, tier="quick" if n in (B // 2,) else "thorough")
+
+for (h, B) in (("h_ct_ctr128", 16), ("h_ct_ctr64", 8), ("h_ct_ctrm", 8)):
+    for n in (0, 1, B - 1, B, B + 1, 2 * B + 1):
+        for off in (0, 3, B):
+            J("ct.%s.len%d.off%d" % (h[5:], n, off), ["C08"], "h_ct_modes.c", h, loops=False, unwind=2 * B + 6, defs=["CT_LEN=%d" % n, "CT_OFF=%d" % off],
+              must_have=_CT, functions=[h[5:]], timeout=2400, tier="quick" if (n, off) in ((1, 3), (B + 1, B), (2 * B + 1, 0)) else "thorough",
+              bounded="call size %d bytes, keystream-buffer offset %d (representative pair); complete over secrets" % (n, off),
+              note="generic CTR encrypt: public = call size and buffer offset; secret = data, counter, buffered keystream, schedule")
+for (h, B) in (("h_ct_setctr128", 16), ("h_ct_setctr64", 8), ("h_ct_setctrm", 8)):
+    for n in (0, 1, B - 1, B, B + 1):
+        J("ct.%s.len%d" % (h[5:], n), ["C08"], "h_ct_modes.c", h, loops=False, unwind=20, defs=["CT_LEN=%d" % n], must_have=_CT, functions=[h[5:]], timeout=2400,
+          tier="quick" if n in (1, B) else "thorough",
+          note="set_counter: public = length %d and NULL-ness; secret = counter bytes and the previous context" % n)
+for (h, uw) in (("h_ct_par128", 8), ("h_ct_parm", 8)):
+    J("ct." + h[5:], ["C08"], "h_ct_modes.c", h, loops=False, unwind=uw, must_have=_CT, functions=[h[5:]], timeout=2400,
+      bounded="parallel sizes <= 48 / 24 bytes symbolic; complete over secrets",
+      note="parallel dispatchers without a vector back end (public = size, direction)")
+# (the Skinny-128 / Skinny-64 vector functions were tried too: symbolic execution of 2 x 56 / 2 x 40 unwound vector
+#  rounds did not finish within 40 minutes, so only the 8-round Mantis vector function carries a C08 job)
+for (tag, dfs, uw) in (("mantis", [], 9),):
+    J("ct.vec128_" + tag, ["C08"], "h_ct_vec128.c", "h_ct_vec", loops=False, unwind=uw, defs=dfs, cflags=["-msse2"], must_have=_CT,
+      functions=["vector block functions (%s, 128-bit)" % tag], timeout=3600, tier="thorough",
+      note="vector block functions: rounds public, schedule / data / tweaks secret")
+
+# ------------------------------------------------------------------ C20: example tools against the ghost file model
+_EXLIB_CTR = ["parse_options", "skinny128_ctr_init", "skinny64_ctr_init", "skinny128_ctr_cleanup", "skinny64_ctr_cleanup", "skinny128_ctr_set_key",
+              "skinny64_ctr_set_key", "skinny128_ctr_set_counter", "skinny64_ctr_set_counter", "skinny128_ctr_encrypt", "skinny64_ctr_encrypt"]
+J("ex.ctr_main", ["C20"], "h_ex_ctr.c", "h_main", enforce="skinny_ctr_main", replace=_EXLIB_CTR, must_have=LC + PC + ["C20 "], replay="tools",
+  functions=["main (skinny-ctr.c)"], timeout=1800,
+  note="every input length (symbolic, unbounded): bytes written == bytes read, chunk by chunk at the same file position, after the library call on exactly that chunk; files closed; invalid options: exit 1 before the output is opened")
+
+_EXLIB_ECB = ["parse_options"] + [f % b for b in ("128", "64") for f in ("skinny%s_parallel_ecb_init", "skinny%s_parallel_ecb_cleanup", "skinny%s_parallel_ecb_set_key",
+                                                                          "skinny%s_parallel_ecb_encrypt", "skinny%s_parallel_ecb_decrypt")]
+J("ex.ecb_main", ["C20"], "h_ex_ecb.c", "h_main", enforce="skinny_ecb_main", replace=_EXLIB_ECB, must_have=LC + PC + ["C20 "], replay="tools",
+  functions=["main (skinny-ecb.c)"], timeout=1800,
+  note="every input length: whole blocks of every chunk transformed in the direction of -d and written at the position they were read from; trailing partial block dropped; files closed; objects cleaned up")
+
+_EXLIB_TW = ["parse_options", "increment_tweak"] + [f % b for b in ("128", "64") for f in ("skinny%s_set_tweaked_key", "skinny%s_set_tweak", "skinny%s_ecb_encrypt", "skinny%s_ecb_decrypt")]
+J("ex.tweak_main", ["C20"], "h_ex_tweak.c", "h_main", enforce="skinny_tweak_main", replace=_EXLIB_TW, must_have=LC + PC + ["C20 "], replay="tools",
+  functions=["main (skinny-tweak.c)"], timeout=1800,
+  note="every input length: every whole block transformed once, in order, in the direction of -d, each under a freshly set tweak (increment_tweak then set_tweak between blocks); written at the position read; trailing partial block dropped")
+J("ex.increment_tweak", ["C20"], "h_ex_tweak.c", "h_increment", enforce="increment_tweak", defs=["VERIF_EX_INCREMENT=1"], loops=False, unwind=18, must_have=PC, replay="tools",
+  note="tweak (1..16 bytes, symbolic length) += 1 as a big-endian integer modulo 2^(8 n); 16-iteration loop unwound")
+
+J("ex.parse_hex", ["C20"], "h_ex_options.c", "h_parse_hex", enforce="parse_hex", loops=False, unwind=10, must_have=PC, replay="tools",
+  bounded="argument strings of at most 8 characters (the string walk is unwound with an unwinding assertion); max_len symbolic <= 48",
+  note="writes only buf[0..max_len), returns at most max_len, for every string content incl. separators, odd digit counts and invalid characters")
+J("ex.parse_options", ["C20"], "h_ex_options.c", "h_parse_options", enforce="parse_options", defs=["VERIF_EX_PARSE_OPTIONS=1"], replace=["parse_hex", "usage", "invalid_key_size", "strcmp"], loops=True,
+  must_have=LC + PC, replay="tools", timeout=1800,
+  note="getopt replaced by its model (any option sequence, unbounded); returns 1 only with block size 8/16, key length within the LIBRARY's range for the tool's mode, counter/tweak length 1..block, both file names taken from argv")
+
 
 # ------------------------------------------------------------------ loop handling policy
 # Jobs whose enforced function (with its inlined callees) carries NO loop contract are run WITHOUT
@@ -278,7 +351,7 @@ for d in ("crypt", "crypt_tweaked"):
 # reports as UNDECIDED, never as a violation.
 import re as _re
 _LOOPY = _re.compile(r"(ecb_encrypt|ecb_decrypt|set_tk[123]$|xor_tk1$|\.def_encrypt$|^v\w+\.encrypt$|^p\w+\.(encrypt|decrypt|crypt)$|"
-                     r"^i\.(cleanse|xor)$|ecb_crypt|overlap_|\.eblock$|^pv\w+\.|^lemma\.)")
+                     r"^i\.(cleanse|xor)$|ecb_crypt|overlap_|^ex\.\w+_main$|^ex\.parse_options$|\.eblock$|^pv\w+\.|^lemma\.)")
 for _j in JOBS:
     if _j.loops and not _LOOPY.search(_j.id):
         _j.loops = False
